@@ -20,7 +20,7 @@ def model_predict(jobs, prop="none", workers=4, procs=None, timeout=1800, allow_
     jobs2 = []
     for j in jobs:
         if any(n["cache"] for _, n in IR.all_nodes(j["prog"])):
-            j = dict(j, prog=IR.assign_fids(copy.deepcopy(j["prog"])))
+            j = dict(j, prog=IR.assign_fids(copy.deepcopy(j["prog"])), alt=IR.assign_fids(copy.deepcopy(j.get("alt", IR.prog("_", [])))))
         jobs2.append(j)
     jobs = jobs2
     res, stats = tlc.run_batch("Predict", jobs, "HG_JOBS", cfg=f"Predict_{prop}.cfg", workers=workers, procs=procs, timeout=timeout)
